@@ -18,14 +18,14 @@ namespace GeographicLib {
 
   DST::DST(int N)
     : _nN(N < 0 ? 0 : N)
-    , _fft(make_shared<fft_t>(fft_t(2 * _nN, false)))
+    , _fft(make_shared<fft_t>(fft_t(2 * size_t(_nN), false)))
   {}
 
   void DST::reset(int N) {
     N = N < 0 ? 0 : N;
     if (N == _nN) return;
     _nN = N;
-    _fft->assign(2 * _nN, false);
+    _fft->assign(2 * size_t(_nN), false);
   }
 
   void DST::fft_transform(real data[], real F[], bool centerp) const {
